@@ -867,7 +867,8 @@ func ruleDriver(p *Program, r *Reporter) {
 		noOpt, _ = constant.Int64Val(c.Val())
 	}
 	// registered flag names → field
-	flagField := map[string]string{} // "pkg.Type.field" by flag name
+	flagField := map[string]string{}  // "pkg.Type.field" by flag name
+	flagDefault := map[string]int64{} // numeric default by field
 	for _, fn := range cmdFns {
 		for _, b := range fn.Blocks {
 			for _, ins := range b.Instrs {
@@ -877,6 +878,13 @@ func ruleDriver(p *Program, r *Reporter) {
 				}
 				if k, ok := c.Call.Args[2].(*ssa.Const); ok && k.Value != nil && k.Value.Kind() == constant.String {
 					flagField[constant.StringVal(k.Value)+" in "+recvName(fn)] = fieldKey(c.Call.Args[1])
+					if len(c.Call.Args) > 3 {
+						if dk, ok := c.Call.Args[3].(*ssa.Const); ok {
+							if n, ok := constInt(dk); ok {
+								flagDefault[fieldKey(c.Call.Args[1])] = n
+							}
+						}
+					}
 				}
 			}
 		}
@@ -912,25 +920,145 @@ func ruleDriver(p *Program, r *Reporter) {
 			r.Check(!bad.IsValid(), "flag -"+bd.name+"/keeps the value given on the command line", p.Pos(bad), "the field the flag is bound to is written by the flag package only", who+" assigns to the field the flag is bound to: a later script (or a later step) of the same invocation is run with a value the user did not give — a -timeout that has been used up becomes 0, which is the value for \"no time limit\"")
 		}
 	}
+	// the functions of the driver through which Prepare / SetContext are reached
+	reachesFn := func(target *ssa.Function) map[*ssa.Function]bool {
+		out := map[*ssa.Function]bool{}
+		for changed := true; changed; {
+			changed = false
+			for _, fn := range cmdFns {
+				if out[fn] {
+					continue
+				}
+				for _, b := range fn.Blocks {
+					for _, ins := range b.Instrs {
+						if cc := callOf(ins); cc != nil && cc.StaticCallee() != nil && (cc.StaticCallee() == target || out[cc.StaticCallee()]) && !out[fn] {
+							out[fn] = true
+							changed = true
+						}
+					}
+				}
+			}
+		}
+		return out
+	}
+	preparing, contexting := reachesFn(a.prepare), reachesFn(setCtx)
+	// (1) SetContext never after Prepare — whichever function of the driver
+	// each of the two calls is made in
+	for _, fn := range cmdFns {
+		var first ssa.Instruction
+		late := token.NoPos
+		sets := false
+		for _, b := range fn.Blocks {
+			for _, ins := range b.Instrs {
+				cc := callOf(ins)
+				if cc == nil || cc.StaticCallee() == nil {
+					continue
+				}
+				if cc.StaticCallee() == setCtx || contexting[cc.StaticCallee()] {
+					sets = true
+				}
+				if cc.StaticCallee() != a.prepare && !preparing[cc.StaticCallee()] {
+					continue
+				}
+				// the evaluator that was prepared: the receiver / an argument of
+				// the call, or what it hands back
+				evs := evalValuesOf(ins, cc)
+				if len(evs) == 0 {
+					continue // prepared and used inside the callee: judged there
+				}
+				if first == nil {
+					first = ins
+				}
+				walkForward(ins, func(i2 ssa.Instruction) bool {
+					if c2 := callOf(i2); c2 != nil && c2.StaticCallee() != nil && (c2.StaticCallee() == setCtx || contexting[c2.StaticCallee()]) {
+						for _, a2 := range c2.Args {
+							for _, ev := range evs {
+								if sameOrigin(a2, ev) {
+									late = i2.Pos()
+								}
+							}
+						}
+					}
+					return false
+				})
+			}
+		}
+		if first != nil && sets {
+			r.Check(!late.IsValid(), p.FnName(fn)+"/context is set before Prepare", p.Pos(first.Pos()), "no SetContext is reachable after Prepare", "SetContext is called after Prepare ("+p.Pos(late)+"): the machine built by Prepare keeps the old context and the -timeout flag has no effect")
+		}
+	}
+	// (1b) -timeout reaches the evaluator for every value but the one that
+	// stands for "not given": the deadline is installed under `flag != default`
+	// and under nothing narrower
+	{
+		tfields := map[string]bool{}
+		for k, f := range flagField {
+			if strings.HasPrefix(k, "timeout in ") && f != "" {
+				tfields[f] = true
+			}
+		}
+		nth := 0
+		for _, fn := range cmdFns {
+			for _, b := range fn.Blocks {
+				for _, ins := range b.Instrs {
+					cc := callOf(ins)
+					if cc == nil || cc.StaticCallee() == nil || cc.StaticCallee().Pkg == nil || cc.StaticCallee().Pkg.Pkg.Path() != "context" || !strings.HasPrefix(cc.StaticCallee().Name(), "WithTimeout") {
+						continue
+					}
+					if len(tfields) == 0 || len(cc.Args) < 2 || !carriesFlag(p, cc.Args[1], tfields, 0, map[ssa.Value]bool{}) {
+						continue
+					}
+					nth++
+					key := fmt.Sprintf("%s/deadline %d is installed for every -timeout but the default", p.FnName(fn), nth)
+					bad := ""
+					for d := b; d.Idom() != nil; d = d.Idom() {
+						iff, ok := terminator(d.Idom()).(*ssa.If)
+						if !ok {
+							continue
+						}
+						bo, ok := iff.Cond.(*ssa.BinOp)
+						if !ok {
+							continue
+						}
+						var other ssa.Value
+						switch {
+						case carriesFlag(p, bo.X, tfields, 0, map[ssa.Value]bool{}):
+							other = bo.Y
+						case carriesFlag(p, bo.Y, tfields, 0, map[ssa.Value]bool{}):
+							other = bo.X
+						default:
+							continue
+						}
+						k, isK := other.(*ssa.Const)
+						onTrue := d.Idom().Succs[0] == d
+						switch {
+						case !isK:
+							bad = "the test compares the flag with something that is not a constant"
+						case bo.Op == token.NEQ && onTrue, bo.Op == token.EQL && !onTrue:
+							n, ok := constInt(k)
+							if !ok {
+								bad = "the test compares the flag with something that is not a number"
+							}
+							for f := range tfields {
+								if def, has := flagDefault[f]; !has || def != n {
+									bad = fmt.Sprintf("the flag is compared with %d, which is not the default it is registered with: without -timeout the script is run under a deadline that Execute would not have", n)
+								}
+							}
+						default:
+							bad = "the deadline is installed under `" + bo.Op.String() + "`, not under \"differs from the default\""
+						}
+					}
+					r.Check(bad == "", key, p.Pos(ins.Pos()), "the only test of the flag on the way is `!= 0`", bad+": some values of -timeout that the user can give — a negative one, which used to mean \"already expired\" — silently run the script with no limit at all")
+				}
+			}
+		}
+	}
 	for _, fn := range cmdFns {
 		prepCalls := callsTo(fn, a.prepare)
 		if len(prepCalls) == 0 {
 			continue
 		}
 		base := p.FnName(fn)
-		// (1) SetContext never after Prepare
-		late := token.NoPos
-		for _, pc := range prepCalls {
-			walkForward(pc.(ssa.Instruction), func(ins ssa.Instruction) bool {
-				if cc := callOf(ins); cc != nil && cc.StaticCallee() == setCtx {
-					late = ins.Pos()
-				}
-				return false
-			})
-		}
-		if len(callsTo(fn, setCtx)) > 0 {
-			r.Check(!late.IsValid(), base+"/context is set before Prepare", p.Pos(prepCalls[0].Pos()), "no SetContext is reachable after Prepare", "SetContext is called after Prepare ("+p.Pos(late)+"): the machine built by Prepare keeps the old context and the -timeout flag has no effect")
-		}
 		// (2) -no-optimizer reaches Prepare as NoOptimize
 		field := flagField["no-optimizer in "+recvName(fn)]
 		noOptFields := map[string]bool{}
@@ -2241,4 +2369,45 @@ func structFieldSources(p *Program, sv ssa.Value, k int, addr bool, depth int) (
 		return out, true
 	}
 	return nil, false
+}
+
+// evalValuesOf: the evaluator(s) a call concerns — arguments (the receiver
+// included) of type *Eval, and a result of that type.
+func evalValuesOf(ins ssa.Instruction, cc *ssa.CallCommon) []ssa.Value {
+	isEval := func(t types.Type) bool { return isNamed(t, "", "Eval") && isPointer(t) }
+	var out []ssa.Value
+	for _, a := range cc.Args {
+		if isEval(a.Type()) {
+			out = append(out, a)
+		}
+	}
+	if v, ok := ins.(ssa.Value); ok {
+		if isEval(v.Type()) {
+			out = append(out, v)
+		}
+		if _, isTuple := v.Type().(*types.Tuple); isTuple && v.Referrers() != nil {
+			for _, ref := range *v.Referrers() {
+				if ex, ok := ref.(*ssa.Extract); ok && isEval(ex.Type()) {
+					out = append(out, ex)
+				}
+			}
+		}
+	}
+	return out
+}
+
+// sameOrigin: the two values can be the same object (they share an origin).
+func sameOrigin(a, b ssa.Value) bool {
+	if a == b {
+		return true
+	}
+	oa, ob := origins(a), origins(b)
+	for _, x := range oa {
+		for _, y := range ob {
+			if x == y {
+				return true
+			}
+		}
+	}
+	return false
 }
